@@ -13,6 +13,8 @@ THEOREMS = ["IwModel.C06." + t for t in (
     "blkinv_spec", "blkinv_create", "blkinv_sync", "blkinv_addkv", "blkinv_rmkv", "blkinv_updatev", "blkinv_compact",
     "blkinv_history", "blkinv_history_from", "addkv_content", "rmkv_content", "updatev_content", "updatev_failure_keeps_block", "addkv_failure_keeps_block", "updatev_old_loses_record",
     "blkinv_checkSlots", "blkinv_checkSlots_node", "history_checkSlots")]
+# C functions this check's models mirror (source-text fingerprints are recorded in the evidence, see translate/funchash.py)
+MODELLED_FUNCS = {'src/kv/iwkv.c': ['_sblk_sync_mm', '_sblk_at2', '_kvblk_sync_mm', '_kvblk_at_mm', '_kvblk_addkv', '_kvblk_rmkv', '_kvblk_updatev', '_kvblk_compact_mm', '_sblk_create_v1', '_sblk_create_v2', '_sblk_destroy', '_db_save', '_db_destroy_lw', '_lx_split_addkv', '_lx_del_sblk_lw']}
 MANIFEST = dict(
     level="proof",
     text=("An independent reader of the file format written in Lean (allocator header, bitmap, database chain, node records, data blocks) "
